@@ -693,6 +693,22 @@ class Consumer(object):
         self._commit_req = None  # It has fired, we can clear it
         return result
 
+    def _check_commit_response(self, responses):
+        """A commit is acknowledged by the entry for our partition
+
+        The client hands over the entries the broker sent (it raises for an
+        error code in one of them). A response without an entry for our
+        partition acknowledges nothing: treat it as a failed attempt.
+        """
+        if isinstance(responses, (list, tuple)) and not any(
+            getattr(r, "topic", None) == self.topic and getattr(r, "partition", None) == self.partition
+            for r in responses
+        ):
+            raise KafkaError(
+                "OffsetCommit response has no entry for {}:{}: {!r}".format(self.topic, self.partition, responses)
+            )
+        return responses
+
     def _update_committed_offset(self, result, offset):
         # successful commit request completed
         self._last_committed_offset = offset
@@ -752,6 +768,7 @@ class Consumer(object):
         )
 
         d.addBoth(self._clear_commit_req)
+        d.addCallback(self._check_commit_response)
         d.addCallbacks(
             callback=self._update_committed_offset,
             callbackArgs=(commit_offset,),
